@@ -241,7 +241,13 @@ def run(tier):
         res.add(v)
     bound = 2
     st = explore.explore(Race("line"), race_params(tier), bound)
+    ix = None
+    if tier != "quick":
+        ix = explore.extra(st, explore.hybrid(Race("instr")), [dict(p, bound=2.015) for p in race_params(tier)[:6] if len(p["threads"]) == 2],
+                           2.015, 1200, "two-thread harnesses at instruction granularity, two preemptions of which at most one inside a source line")
     fill(res, st, bound, "line")
+    if ix:
+        res.coverage["instruction_extra"] = ix
     cov = res.coverage
     cov["race_part"] = {"executions": st.executions, "scheduling_steps": st.steps, "distinct_outcomes": len(st.outcomes),
                         "verdicts": st.verdicts, "bound": bound}
